@@ -1682,6 +1682,7 @@ EGLPNUM_TYPENAME_QSLIB_INTERFACE int EGLPNUM_TYPENAME_QSload_basis (
 	QSbasis * B)
 {
 	int rval = 0;
+	EGLPNUM_TYPENAME_ILLlp_basis nB;
 
 	rval = check_qsdata_pointer (p);
 	CHECKRVALG (rval, CLEANUP);
@@ -1690,6 +1691,16 @@ EGLPNUM_TYPENAME_QSLIB_INTERFACE int EGLPNUM_TYPENAME_QSload_basis (
 	{
 		QSlog("size of basis does not match lp");
 		rval = 1;
+		goto CLEANUP;
+	}
+
+	/* convert (and validate) into a local basis first, so that a rejected B
+	 * leaves the problem's current basis in place */
+	EGLPNUM_TYPENAME_ILLlp_basis_init (&nB);
+	rval = qsbasis_to_illbasis (B, &nB);
+	if (rval)
+	{
+		EGLPNUM_TYPENAME_ILLlp_basis_free (&nB);
 		goto CLEANUP;
 	}
 
@@ -1702,9 +1713,7 @@ EGLPNUM_TYPENAME_QSLIB_INTERFACE int EGLPNUM_TYPENAME_QSload_basis (
 	{
 		EGLPNUM_TYPENAME_ILLlp_basis_free (p->basis);
 	}
-
-	rval = qsbasis_to_illbasis (B, p->basis);
-	CHECKRVALG (rval, CLEANUP);
+	*(p->basis) = nB;
 
 	p->factorok = 0;
 
